@@ -244,6 +244,10 @@ def main():
                     if m in str(e):
                         continue
                     raise
+        for m in list(sys.modules.values()):
+            al = getattr(m, 'REPLAYERS_ALIAS', None)
+            if al and target in al:
+                target = al[target]
         if target not in REPLAYERS:
             print(json.dumps({'violates': None, 'detail': 'no replayer for ' + target}))
             return
